@@ -411,7 +411,8 @@ def random_edit(r: random.Random, root, *, allow_comments: bool = True, focus=No
             elif names & {'MetaItem'}:
                 mk = lambda: make_meta_item(r)
             else:
-                cands = [t for t in rt if t.__name__ in TOKEN_SAMPLERS and hasattr(t, 'from_value')]
+                cands = [t for t in rt if t.__name__ in TOKEN_SAMPLERS and hasattr(t, 'from_value')
+                         and t is not models.BlockComment]       # a raw comment needs a fitting indent: value-level routes only
                 if not cands:
                     continue
                 mk = lambda: make_node(r.choice(cands), r)
